@@ -625,4 +625,41 @@ theorem print_f_nonfinite_text {α : Type} (A : Arith α) (fuel : Nat) (r : α) 
 example : printF exactA cfgNow 0 (.inf true) false 8 3 { zero := true, prec := true, upper := true } true false =
     .ok ("    -INF".toList, 8) := by decide +kernel
 
+/-- **tie_canon_neighbours_agree** — the canonical form of the correspondence (Tie.lean, `tieLower` = the arithmetic
+core of `tieCanon`): for an argument strictly between two neighbouring printable values `lo` and `lo + u`, both
+neighbours have the same canonical form (in the class: `lo`; outside: none), whatever the window. -/
+theorem tie_canon_neighbours_agree (w u x lo : ℚ) (h1 : lo < x) (h2 : x < lo + u) :
+    tieLower w u x lo = tieLower w u x (lo + u) := by
+  unfold tieLower
+  simp only [absQ_eq]
+  have e1 : |lo - x| = x - lo := by rw [abs_of_neg (by linarith)]; ring
+  have e2 : |lo + u - x| = lo + u - x := abs_of_pos (by linarith)
+  have e3 : |x - lo - u / 2| = |lo + u - x - u / 2| := by
+    rw [← abs_neg]; congr 1; ring
+  rw [e1, e2, e3]
+  have g1 : ¬ (lo > x) := by linarith
+  have g2 : lo + u > x := by linarith
+  simp only [g1, g2, if_true, if_false]
+  congr 2
+  all_goals first | rfl | ring_nf
+
+example : tieLower (1 / 1000) 1 (5 / 2) 2 = some 2 ∧ tieLower (1 / 1000) 1 (5 / 2) 3 = some 2 ∧ tieLower (1 / 1000) 1 (27 / 10) 3 = none := by
+  decide +kernel
+
+/-- **tie_canon_exact_tie** — an exact tie (x = lo + u/2) with a coarse unit (window ≤ u/4) is in the class, and the
+form of either neighbour is the lower neighbour. -/
+theorem tie_canon_exact_tie (w u lo : ℚ) (hw : 0 ≤ w) (hpos : 0 < u) (hu : w ≤ u / 4) :
+    tieLower w u (lo + u / 2) lo = some lo ∧ tieLower w u (lo + u / 2) (lo + u) = some lo := by
+  unfold tieLower
+  simp only [absQ_eq]
+  have a1 : |lo - (lo + u / 2)| = u / 2 := by
+    rw [show lo - (lo + u / 2) = -(u / 2) by ring, abs_neg, abs_of_nonneg (by linarith)]
+  have a2 : |lo + u - (lo + u / 2)| = u / 2 := by
+    rw [show lo + u - (lo + u / 2) = u / 2 by ring, abs_of_nonneg (by linarith)]
+  rw [a1, a2]
+  simp only [sub_self, abs_zero]
+  have g1 : ¬ (lo > lo + u / 2) := by linarith
+  have g2 : lo + u > lo + u / 2 := by linarith
+  simp [hu, hw, g1, g2]
+
 end Igris.C13
